@@ -25,6 +25,7 @@ type vpWireConn struct {
 	wdeadline bool
 	nwrites   int
 	closed    bool
+	calm      int // the first `calm` writes find a draining peer (keeps set-up responses out of the case split)
 }
 
 type vpTimeoutErr struct{}
@@ -41,7 +42,7 @@ func (c *vpWireConn) Write(b []byte) (int, error) {
 		return 0, vpErrReset
 	}
 	is := strconv.Itoa(c.nwrites)
-	if len(b) > 0 && vpBool("peer-stalls"+is) {
+	if len(b) > 0 && c.nwrites > c.calm && vpBool("peer-stalls"+is) {
 		n := vpIntRange("taken"+is, 0, len(b)-1)
 		c.wire = append(c.wire, b[:n]...)
 		if c.wdeadline {
@@ -68,11 +69,12 @@ func (c *vpWireConn) SetWriteDeadline(t time.Time) error { c.wdeadline = !t.IsZe
 //vp:property C06
 //vp:set reads 2 2
 //vp:set chunk 2 5
-//vp:bounds backend->client over the real legacy OUT transport: a host stream delivered in `reads` socket reads of 0..chunk symbolic bytes each; at every socket write the client either drains, or stalls after any strict prefix and then resumes, resets the connection, or (if the code armed a write deadline) lets the deadline expire
+//vp:bounds backend->client over the real legacy OUT transport: a host stream delivered in `reads` socket reads of 0..chunk symbolic bytes each; at every socket write after the channel response the client either drains, or stalls after any strict prefix and then resumes, resets the connection, or (if the code armed a write deadline) lets the deadline expire
 //vp:assume net.Conn contract as modelled by vpWireConn (short count only together with an error; an error without a deadline is permanent, a deadline error is transient)
 //vp:real (*github.com/bolkedebruin/rdpgw/cmd/rdpgw/transport.LegacyPKT).WritePacket
 //vp:reach complete cut-short
 func VP_C06_legacy_wire() {
+	vpResetC01()
 	nreads := vpParam("reads")
 	host := &vpConn{}
 	var ideal []byte
@@ -81,19 +83,37 @@ func VP_C06_legacy_wire() {
 		host.reads = append(host.reads, chunk)
 		ideal = append(ideal, vpPacket(PKT_TYPE_DATA, append([]byte{byte(len(chunk)), 0}, chunk...))...)
 	}
-	wire := &vpWireConn{}
+	wire := &vpWireConn{calm: 1}
 	out := &transport.LegacyPKT{Conn: wire}
-	tun := &Tunnel{transportIn: out, transportOut: out, User: vpUser()}
-	forward(host, tun)
-
-	vpObserveBytes("wire", wire.wire)
-	vpAssert(len(wire.wire) <= len(ideal), "client-socket-never-carries-more-than-the-framed-host-stream")
-	if len(wire.wire) <= len(ideal) {
-		vpAssert(vpEqBytes(wire.wire, ideal[:len(wire.wire)]), "client-socket-carries-a-prefix-of-the-well-formed-framing-of-the-host-stream")
+	// the relay is started by the packet loop itself (channel-create on the IN side); the OUT side is the real transport
+	vpBackendReads, vpBackendHangsUp = host.reads, true
+	in := &vpTransport{in: [][]byte{vpSetupPacket(3)}, yieldOnRead: true}
+	in.beforeEOF = func() {
+		if len(vpDialConns) == 1 {
+			vpWaitClosed(vpDialConns[0])
+		}
+	}
+	tun := &Tunnel{transportIn: in, transportOut: out, User: vpUser()}
+	p := NewProcessor(&Gateway{}, tun)
+	p.state = SERVER_STATE_TUNNEL_AUTHORIZE
+	p.Process(vpCtx())
+	vpRunTasks()
+	vpAssume(len(vpDialConns) == 1)
+	// the 20-byte channel response precedes the data packets on the wire (its content is C16's subject)
+	w := wire.wire
+	if len(w) > 20 {
+		w = w[20:]
+	} else {
+		w = nil
+	}
+	vpObserveBytes("wire", w)
+	vpAssert(len(w) <= len(ideal), "client-socket-never-carries-more-than-the-framed-host-stream")
+	if len(w) <= len(ideal) {
+		vpAssert(vpEqBytes(w, ideal[:len(w)]), "client-socket-carries-a-prefix-of-the-well-formed-framing-of-the-host-stream")
 	}
 	if !wire.broken {
 		vpReach("complete")
-		vpAssert(len(wire.wire) == len(ideal), "nothing-dropped-while-the-client-connection-lives")
+		vpAssert(len(wire.wire) == 20+len(ideal), "nothing-dropped-while-the-client-connection-lives")
 	} else {
 		vpReach("cut-short")
 	}
